@@ -19,3 +19,5 @@ run plus_commute src/bytewise/iter.rs 's/end: pos + 1,/end: 1 + pos,/' iter_bw
 run rename_local src/bytewise/builder.rs 's/child_idx/cidx/g' build_bw
 run from_u32_to_as src/bytewise.rs 's/usize::from_u32(state_id)/(state_id as usize)/' search_bw
 run early_return_style src/build_helper.rs 's/self.items\[self.offset(idx)\]/self.items[self.offset(idx) + 0]/' helper
+run push_before_use_index src/bytewise/builder.rs '/helper.use_index(child_idx);/{N;N;N;s/\(.*helper.use_index(child_idx);\)\n\(.*\)\n\(.*\)\n\(.*stack.push(child_id);\)/\4\n\1\n\2\n\3/}' build_bw
+run cw_push_first src/charwise/builder.rs '/helper.use_index(child_idx);/{N;N;N;s/\(.*helper.use_index(child_idx);\)\n\(.*\)\n\(.*\)\n\(.*stack.push(child_id);\)/\4\n\1\n\2\n\3/}' build_cw
